@@ -179,6 +179,30 @@ pub fn check_point_rings(run: &mut Run, lon: f64, lat: f64, res: i32, cands: &[(
     }
 }
 
+/// The two descriptions of a cell the API offers - the containment predicate (planar oracle O1 as its exact form) and the
+/// reported boundary - must not hand the same point to two different cells: if the point is strictly inside cell X by O1 and
+/// strictly inside the reported ring of cell Y, both by more than the ring band, then X = Y.
+pub fn check_two_views(run: &mut Run, lon: f64, lat: f64, res: i32, cands: &[MCell], rings: &[(u64, &Vec<V3>)], class: &str) {
+    let pu = unit_from_lonlat(lon, lat);
+    let band2 = o2_band(res, 16).max(lookup_band(lon));
+    let planar: Vec<u64> = cands.iter().filter(|k| o1(**k, lon, lat).map(|d| d < -band2).unwrap_or(false)).map(|k| encode(*k)).collect();
+    let ringed: Vec<u64> = rings.iter().filter(|(_, r)| { let (ins, dist) = o2(r, pu); ins && dist > band2 }).map(|(i, _)| *i).collect();
+    run.evaluations += 1;
+    if planar.len() == 1 && ringed.len() == 1 {
+        if planar[0] != ringed[0] {
+            run.violation(
+                "C03.two_views",
+                json!({"lon": fj(lon), "lat": fj(lat), "res": res, "class": class, "cells": [hu(planar[0]), hu(ringed[0])]}),
+                format!("point ({lon}, {lat}) is strictly inside {} by the containment predicate and strictly inside the reported boundary of {} (both by more than {:.2e} rad): two cells of resolution {res} claim it", hu(planar[0]), hu(ringed[0]), band2),
+            );
+        } else {
+            run.count("two_views.agree");
+        }
+    } else {
+        run.count("two_views.undecided_in_band");
+    }
+}
+
 /// two-ring neighbourhood of p by lookups at offsets, plus all siblings of what was found
 pub fn neighbourhood(rng: &mut Rng, lon: f64, lat: f64, res: i32) -> Vec<MCell> {
     let pu = unit_from_lonlat(lon, lat);
@@ -309,6 +333,10 @@ fn run(ctx: &Ctx) -> Run {
                 class = *rng.pick(&gen::POINT_CLASSES);
                 gen::point(&mut rng, &fr, class)
             };
+            // a point placed on a located discontinuity (12d) comes with a resolution whose cells are comparable to the jump,
+            // and is always judged by the ring variant too (a jump of the inverse projection moves rings, not the predicate)
+            let hinted = crate::loci::take_hint_res(&mut rng);
+            let res = hinted.map(|r| r.max(2)).unwrap_or(res);
             let cands = neighbourhood(&mut rng, lo, la, res);
             if i % 2 == 1 && !cands.is_empty() {
                 // history: a relative of one candidate (same curve position on another face, ...) is placed immediately before
@@ -317,12 +345,13 @@ fn run(ctx: &Ctx) -> Run {
                 run.count("neighbourhood.primed_with_a_relative");
             }
             check_point(run, lo, la, res, &cands, class, "lookups");
-            if i % 8 == 5 && cands.len() <= 64 {
+            if (i % 8 == 5 || hinted.is_some()) && cands.len() <= 64 {
                 // the public-API-only variant at every resolution: reported rings (16 segments per edge) of the same
                 // neighbourhood; exactly one must contain the point (or the point is within the ring band of one)
                 let rings: Vec<(u64, Vec<V3>)> = cands.iter().filter_map(|k| ring_units(encode(*k), 16).ok().map(|r| (encode(*k), r))).collect();
                 let refs: Vec<(u64, &Vec<V3>)> = rings.iter().map(|(i, r)| (*i, r)).collect();
                 check_point_rings(run, lo, la, res, &refs, class);
+                check_two_views(run, lo, la, res, &cands, &refs, class);
                 run.count("neighbourhood.ring_variant");
             }
             run.count(&format!("neighbourhood.res{res:02}"));
